@@ -323,3 +323,54 @@ func rdLen(r io.ByteReader) int {
 //@   ensures wfWR(result) && fresh(result) && result.seg == 0 && result.pos == 0 && sameSlice(result.wire, w)
 //@   loop 1 invariant 0 <= i && i <= len(w) && len(accSz) == len(w)+1 && accSz[0] == 0 && fresh(accSz)
 //@   loop 1 invariant forallIn(0, i, func(j int) bool { return accSz[j+1] == accSz[j]+len(w[j]) })
+
+// ---------------------------------------------------------------------------------------
+// name_component.go / name_pattern.go — component and name encoders
+// ---------------------------------------------------------------------------------------
+
+// specCompLen: size of the TLV encoding of a name component: T (var-number), L (var-number), V.
+func specCompLen(c Component) int {
+	return specTLLen(uint64(c.Typ)) + specTLLen(uint64(len(c.Val))) + len(c.Val)
+}
+
+// specCompAt: buf[o:] starts with exactly the TLV encoding of c (shortest-form T and L, exact L).
+func specCompAt(buf []byte, o int, c Component) bool {
+	s1 := specTLLen(uint64(c.Typ))
+	s2 := specTLLen(uint64(len(c.Val)))
+	return specTLSize(buf, o) == s1 && specTLVal(buf, o) == uint64(c.Typ) &&
+		specTLSize(buf, o+s1) == s2 && specTLVal(buf, o+s1) == uint64(len(c.Val)) &&
+		forallIn(0, len(c.Val), func(i int) bool { return buf[o+s1+s2+i] == c.Val[i] })
+}
+
+//@ func (Component).EncodingLength
+//@   ensures result == specCompLen(c)
+
+//@ func (Component).EncodeInto
+//@   requires len(buf) >= specCompLen(c) && sliceArr(c.Val) != sliceArr(buf)
+//@   modifies buf[*]
+//@   ensures result == specCompLen(c)
+//@   ensures specCompAt(buf, 0, c)
+//@   ensures unchangedExcept(buf, 0, result)
+
+//@ func (Component).Bytes
+//@   ensures len(result) == specCompLen(c) && specCompAt(result, 0, c) && fresh(result)
+
+//@ func ParseComponent
+//@   requires len(buf) >= 2 && len(buf) >= specTLSize(buf, 0) && len(buf) >= specTLSize(buf, 0)+1
+//@   requires len(buf) >= specTLSize(buf, 0)+specTLSize(buf, specTLSize(buf, 0))
+//@   requires specTLVal(buf, specTLSize(buf, 0)) <= uint64(len(buf)-specTLSize(buf, 0)-specTLSize(buf, specTLSize(buf, 0)))
+//@   ensures uint64(result0.Typ) == specTLVal(buf, 0)
+//@   ensures uint64(len(result0.Val)) == specTLVal(buf, specTLSize(buf, 0))
+//@   ensures result1 == specTLSize(buf, 0)+specTLSize(buf, specTLSize(buf, 0))+len(result0.Val)
+//@   ensures forallIn(0, len(result0.Val), func(i int) bool { return result0.Val[i] == buf[specTLSize(buf, 0)+specTLSize(buf, specTLSize(buf, 0))+i] })
+
+// Round trip for one component: parsing the standalone encoding gives the component back.
+//
+//@ func lemmaComponentRoundTrip
+//@   ensures result.Typ == c.Typ && len(result.Val) == len(c.Val)
+//@   ensures forallIn(0, len(c.Val), func(i int) bool { return result.Val[i] == c.Val[i] })
+func lemmaComponentRoundTrip(c Component) Component {
+	b := c.Bytes()
+	r, _ := ParseComponent(b)
+	return r
+}
